@@ -117,9 +117,21 @@ def _rand_axis_index(rng, n, allow_arr=True, allow_int=True):
         kinds.append('int')
     if allow_arr:
         kinds.append('arr')
+    if allow_arr and n > 1:
+        kinds.append('samesize')
     k = rng.choice(kinds)
     if k == 'full':
         return {'t': 'slice', 'v': [None, None, None]}
+    if k == 'samesize':
+        # as many entries as the axis has, but not the identity: reversed, permuted or with repeats
+        r = rng.random()
+        if r < 0.3:
+            return {'t': 'slice', 'v': [None, None, -1]}
+        if r < 0.7:
+            v = list(range(n))
+            rng.shuffle(v)
+            return {'t': 'arr', 'v': v}
+        return {'t': 'arr', 'v': sorted(rng.randrange(n) for _ in range(n))}
     if k == 'int':
         return {'t': 'int', 'v': rng.randrange(-n, n)}
     if k == 'arr':
@@ -266,7 +278,8 @@ def poly_grad_float(terms, xs, n):
 DEFAULT_OPTS = dict(
     n_comps=(2, 5), max_rank=2, max_extent=3, units=True, chains=True, max_deg=2,
     scaling=False, safe_indices=False, cycles=False, auto_ivc=True, shuffle_order=False,
-    implicit=False, array_scaling=False, resp_chain=False, prefix_names=False,
+    implicit=False, array_scaling=False, resp_chain=False, prefix_names=False, dyn_sibling=False,
+    auto_ivc_p=0.15,
 )
 
 
@@ -326,7 +339,7 @@ def gen_md(rng, **kw):
         for j in range(n_in):
             iname = 'a%d' % j
             # pick a source among existing outputs (acyclic by construction) or leave unconnected
-            if o['auto_ivc'] and rng.random() < 0.15:
+            if o['auto_ivc'] and rng.random() < o['auto_ivc_p']:
                 shape = _rand_shape(rng, o['max_rank'], o['max_extent'])
                 units = rng.choice([None, 'm', 's']) if o['units'] else None
                 size = int(np.prod(shape))
@@ -424,6 +437,7 @@ def gen_md(rng, **kw):
         _add_feedback(rng, md)
     if o['resp_chain']:
         _add_response_chain(rng, md)
+    md['dyn_sibling'] = bool(o['dyn_sibling'])
     if o['prefix_names']:
         # some component names become <name of an earlier sibling> + suffix, so that one pathname is
         # a plain string prefix of another without being its parent ('c0' / 'c0_b', 'c1' / 'c12')
@@ -606,6 +620,10 @@ def _assign_styles(rng, md):
         kmax = len(glevels)
         if cn['style'] == 'auto_ivc':
             k = rng.randint(0, kmax)
+            if md.get('dyn_sibling') and kmax > 0 and rng.random() < 0.7:
+                # the promoted name is shared with a dynamically shaped (shape_by_conn) sibling input
+                k = max(k, 1)
+                cn['dyn_sibling'] = True
             cn['promote_levels'] = k
             cn['alias'] = 'p%d_%s' % (n, iname) if k > 0 else None
             cn['level_idx'] = [None] * k
@@ -1074,6 +1092,14 @@ def build_problem(md, log=None, cfg=None):
         tgt_root = '.'.join(remaining + [cur])
         cn['tgt_root'] = tgt_root
         if cn['src'] is None:
+            idef = [i for i in c['ins'] if i['name'] == iname][0]
+            if cn.get('dyn_sibling') and k > 0 and not idef.get('units'):
+                # a sibling with a dynamically shaped input promoted to the same name, in the group
+                # where the innermost promoted name lives
+                host = c['group']
+                sib = _make_dyn_sibling(om)
+                gobj[host].add_subsystem('dyn%d_%s' % (ci, iname), sib,
+                                         promotes_inputs=[('d', cn['alias'])])
             continue
         sci, soname = cn['src']
         src_root = out_root_name(md, sci, soname)
@@ -1084,6 +1110,20 @@ def build_problem(md, log=None, cfg=None):
             kw['flat_src_indices'] = bool(cn['chain'][e]['flat'])
         model.connect(src_root, tgt_root, **kw)
     return p, {'groups': gobj, 'comps': cobj}
+
+
+def _make_dyn_sibling(om):
+    class DynSib(om.ExplicitComponent):
+        def setup(self):
+            self.add_input('d', shape_by_conn=True)
+            self.add_output('dy', copy_shape='d')
+
+        def setup_partials(self):
+            self.declare_partials('dy', 'd', method='cs')
+
+        def compute(self, inputs, outputs):
+            outputs['dy'] = 2.0 * inputs['d']
+    return DynSib()
 
 
 def _apply_solver_cfg(om, model, gobj, cfg):
